@@ -22,7 +22,7 @@ from ..refports import NODEFAULT
 from ..vloop import VLoop
 
 ID = 'C12'
-VALUES = (1, 'a', -1, '')  # '' = a falsy value of the wrong type for int ports and int-typed namespaces
+VALUES = (1, 'a', -1, '', ())  # '' = a falsy value of the wrong type for int ports and int-typed namespaces; () = the empty tuple
 FINALS = (('ret', None), ('ret', 5), ('unsucc', 3))
 FINAL_RESULT = {('ret', None): (None, True), ('ret', 5): (5, True), ('unsucc', 3): (3, False)}
 
